@@ -517,6 +517,8 @@ type connectableObservableImpl[T any] struct {
 	source       Observable[T]
 	subject      Subject[T]
 	subscription Subscription
+	connections  int // number of connections made: `subscription` is the last one
+	ended        int // number of the last connection whose end has been handled
 }
 
 // Connect connects the ConnectableObservable. When connected, the ConnectableObservable
@@ -544,15 +546,18 @@ func (s *connectableObservableImpl[T]) Connect() Subscription {
 func (s *connectableObservableImpl[T]) ConnectWithContext(ctx context.Context) Subscription {
 	s.mu.Lock()
 	if s.subscription == nil || s.subscription.IsClosed() {
+		// The previous connection has ended: its teardown may not have been here yet.
+		s.disconnected(s.connections)
+
 		subscription := s.source.SubscribeWithContext(ctx, s.subject)
 		s.subscription = subscription
+		s.connections++
+		connection := s.connections
 		s.mu.Unlock()
 		subscription.Add(func() {
-			if s.config.ResetOnDisconnect {
-				s.mu.Lock()
-				s.subject = s.config.Connector()
-				s.mu.Unlock()
-			}
+			s.mu.Lock()
+			s.disconnected(connection)
+			s.mu.Unlock()
 		})
 
 		return subscription
@@ -562,6 +567,22 @@ func (s *connectableObservableImpl[T]) ConnectWithContext(ctx context.Context) S
 	s.mu.Unlock()
 
 	return subscription
+}
+
+// disconnected handles the end of the given connection: it replaces the subject when configured
+// so. It does it once per connection, for whoever notices first that the connection has ended: a
+// new connection must not feed a subject that the teardown of the previous one replaces afterwards.
+// Unsafe: must be called in a mutex lock.
+func (s *connectableObservableImpl[T]) disconnected(connection int) {
+	if connection <= s.ended {
+		return
+	}
+
+	s.ended = connection
+
+	if s.config.ResetOnDisconnect {
+		s.subject = s.config.Connector()
+	}
 }
 
 func (s *connectableObservableImpl[T]) Subscribe(observer Observer[T]) Subscription {
